@@ -299,3 +299,109 @@ Proof.
   destruct (st_repo_of s !! p0) as [j|]; [|constructor]. destruct (st_repos s !! j) as [r|]; [|constructor].
   destruct (validate_parents s r (p0 :: ps)); [|constructor]. destruct (N.eqb j i); repeat constructor.
 Qed.
+
+(* ------------------------------------------------------------------ requests that leave the DAG alone *)
+
+Lemma view_data c s i j f : view_ok c s i -> view_ok c (upd_repo s j (upd_data f)) i.
+Proof.
+  intros [A (r & Hr & V)]. constructor; [exact A|]. simpl.
+  destruct (decide (i = j)) as [->|Ne].
+  - exists (upd_data f r). rewrite lookup_alter, Hr. simpl. auto.
+  - exists r. now rewrite lookup_alter_ne by auto.
+Qed.
+
+Lemma view_bump c s i : view_ok c s i -> view_ok c (bump_instance_id s) i.
+Proof. intros [A B]. constructor; auto. Qed.
+
+Lemma drop_versions_repos vs : forall s s', drop_versions s vs = Some s' ->
+  st_repos s' = st_repos s /\ st_next_v s' = st_next_v s.
+Proof.
+  induction vs as [|a vs IH]; intros s s' H.
+  - unfold drop_versions in H. simpl in H. injection H as <-. auto.
+  - rewrite drop_versions_cons in H. destruct (st_v2u s !! a) as [u|]; [|discriminate].
+    destruct (IH _ _ H) as [E1 E2]. simpl in *. auto.
+Qed.
+
+Lemma sim_delete_repo s u p c i : view_ok c s i -> view_ok c (fst (do_delete_repo s u p)) i.
+Proof.
+  intros VW. unfold do_delete_repo. destruct (st_repo_of s !! u) as [j|]; auto.
+  destruct (st_repos s !! j) as [r|]; auto.
+  repeat (match goal with |- context [if ?b then _ else _] => destruct b end; auto).
+  match goal with |- context [drop_versions ?a ?b] => destruct (drop_versions a b) as [s2|] eqn:E end; simpl.
+  - destruct (drop_versions_repos _ _ _ E) as [E1 E2]. simpl in E1, E2. eapply view_same; [exact VW|now rewrite E1|exact E2].
+  - eapply view_same; [exact VW|reflexivity|reflexivity].
+Qed.
+
+Lemma sim_new_repo s a p f c i : RepoInv s -> view_ok c s i ->
+  view_ok (xrun (match snd (do_new_repo repaired s a p f) with Done _ => [XSkip (st_next_v s + 1)%N] | _ => [] end) c)
+          (fst (do_new_repo repaired s a p f)) i.
+Proof.
+  intros I VW. unfold do_new_repo.
+  match goal with |- context [if ?b then _ else _] => destruct b end; [exact VW|].
+  unfold new_uuid. simpl.
+  change (st_next_v s + 1)%N with (st_next_v (mkState (st_repos s) (st_repo_of s) (st_roots s) (st_u2v s) (st_v2u s)
+           (st_heads s) (st_next_v s + 1)%N (st_next_r s) (st_next_i s))) at 1.
+  destruct VW as [A (r & Hr & V)].
+  assert (Ni : i <> st_next_r s) by (intros ->; apply (inv_next_r s I) in Hr; lia).
+  constructor; simpl; [lia|]. exists r. rewrite lookup_insert_ne by auto. auto.
+Qed.
+
+Lemma xrun_app xs ys c : xrun (xs ++ ys) c = xrun ys (xrun xs c).
+Proof. unfold xrun. apply fold_left_app. Qed.
+
+(* ------------------------------------------------------------------ (2) every request but resolve: the exact operations *)
+
+Theorem sim_step_exact s r c i xs : RepoInv s -> view_ok c s i -> req_xs s i r = Some xs ->
+  Forall dag_xop xs /\ view_ok (xrun xs c) (fst (Model.Repo.step repaired s r)) i.
+Proof.
+  intros I VW E. destruct r; cbn [req_xs] in E; try (injection E as <-); cbn [Model.Repo.step].
+  - split; [destruct (snd (do_new_repo repaired s root pass fresh)); repeat constructor|now apply sim_new_repo].
+  - unfold h_commit. destruct (node_gate s u false) as [a| | |]; try (split; [apply Forall_nil_2|exact VW]).
+    destruct (locked_uuid s a) as [[|]| | |]; try (split; [apply Forall_nil_2|exact VW]).
+    split; [apply commit_xs_dag|]. pose proof (sim_commit s a c i VW) as H.
+    destruct (do_commit s a). exact H.
+  - unfold h_new_version. destruct (node_gate s u true) as [a| | |]; try (split; [apply Forall_nil_2|exact VW]).
+    destruct (parse_assign assign) as [a'| | |]; try (split; [apply Forall_nil_2|exact VW]).
+    split; [apply new_version_xs_dag|now apply sim_new_version].
+  - unfold h_branch. destruct (node_gate s u true) as [a| | |]; try (split; [apply Forall_nil_2|exact VW]).
+    destruct (parse_assign assign) as [a'| | |]; try (split; [apply Forall_nil_2|exact VW]).
+    match goal with |- context [if ?b then [] else _] => change b with (in_list branch l_branch_refused) end.
+    destruct (in_list branch l_branch_refused); [split; [apply Forall_nil_2|exact VW]|].
+    split; [apply new_version_xs_dag|now apply sim_new_version].
+  - unfold h_tag. destruct (node_gate s u true) as [a| | |]; try (split; [apply Forall_nil_2|exact VW]).
+    pose proof (sim_new_version s a (s_tag_prefix ++ tag) (Some tag) "" c i I VW) as H1.
+    pose proof (new_version_xs_dag s a i (snd (do_new_version repaired s a (s_tag_prefix ++ tag) (Some tag) ""))) as D1.
+    destruct (do_new_version repaired s a (s_tag_prefix ++ tag) (Some tag) "") as [s1 o]. simpl in H1, D1.
+    destruct o as [cu| | |]; simpl.
+    + split; [apply Forall_app; split; [exact D1|apply commit_xs_dag]|].
+      rewrite xrun_app. now apply sim_commit.
+    + split; [apply Forall_nil_2|]. exact H1.
+    + split; [apply Forall_nil_2|]. exact H1.
+    + split; [apply Forall_nil_2|]. exact H1.
+  - unfold h_merge. destruct (repo_gate s u) as [a| | |]; try (split; [apply Forall_nil_2|exact VW]).
+    destruct (length parents <? 2)%nat; [split; [apply Forall_nil_2|exact VW]|].
+    destruct (match_all s parents) as [us| | |]; try (split; [apply Forall_nil_2|exact VW]).
+    destruct (negb mtype_ok); [split; [apply Forall_nil_2|exact VW]|].
+    split; [apply merge_xs_dag|now apply sim_merge].
+  - discriminate.
+  - split; [apply Forall_nil_2|exact VW].
+  - split; [apply Forall_nil_2|exact VW].
+  - split; [apply Forall_nil_2|exact VW].
+  - split; [apply Forall_nil_2|]. unfold h_new_data. destruct (repo_gate s u); try exact VW.
+    destruct (locked_uuid s a) as [[|]| | |]; try exact VW. destruct (negb type_ok); [exact VW|].
+    unfold do_new_data. apply view_bump in VW.
+    destruct (st_repo_of (bump_instance_id s) !! a) as [j|]; [|exact VW].
+    destruct (st_repos (bump_instance_id s) !! j) as [rj|]; [|exact VW].
+    destruct (in_list name (r_data rj)); [exact VW|]. simpl. now apply view_data.
+  - split; [apply Forall_nil_2|]. unfold h_rpc. destruct (matching s u); try exact VW.
+    unfold do_rename_data. destruct (st_repo_of s !! a) as [j|]; [|exact VW].
+    destruct (st_repos s !! j) as [rj|]; [|exact VW].
+    repeat (match goal with |- context [if ?b then _ else _] => destruct b end; try exact VW).
+    simpl. now apply view_data.
+  - split; [apply Forall_nil_2|]. unfold h_rpc. destruct (matching s u); try exact VW.
+    unfold do_delete_data. destruct (st_repo_of s !! a) as [j|]; [|exact VW].
+    destruct (st_repos s !! j) as [rj|]; [|exact VW].
+    repeat (match goal with |- context [if ?b then _ else _] => destruct b end; try exact VW).
+    simpl. now apply view_data.
+  - split; [apply Forall_nil_2|]. unfold h_rpc. destruct (matching s u); try exact VW. now apply sim_delete_repo.
+Qed.
